@@ -7,7 +7,7 @@ from vf import harness, symnp
 
 META = dict(
     functions=["dreye.api.units.convert.irr2flux", "flux2irr", "optional_to", "has_units", "dreye.api.units.pint (unit registry, definitions of I and E, flux context) -- pint itself runs for real on symbolic magnitudes"],
-    bounds=dict(quick="scalars, 1-D spectra of length <= 4, 2-D 2x3 with the wavelength on either axis (axis= variant); prefixes '', 'milli', 'micro', 'nano'; plain arrays and "
+    bounds=dict(quick="scalars, 1-D spectra of length <= 4, 2-D 2x3 with the wavelength on either axis, 3-D / 4-D arrays up to 2x3x2x2 with the wavelength on any axis (axis= variant); prefixes '', 'milli', 'micro', 'nano'; plain arrays and "
                       "pint quantities in I, microI, W/m^2/nm, uW/cm^2/nm (irradiance), E, microE (flux), wavelengths plain / nm / um",
                 thorough="length up to 6, 3x4 arrays"),
     stubs=[],
@@ -116,7 +116,11 @@ def cases(tier, seed):
             add(f"forward/inverse shape={shape} prefix={prefix!r}", "forward_case", shape=shape, prefix=prefix)
         for which in ("irr2flux", "flux2irr"):
             add(f"linear {which} prefix={prefix!r}", "linear_case", n=3, prefix=prefix, which=which)
-            for shape, axis in (((2, 3), 1), ((2, 3), 0), ((3, 2), -1), ((2, 2, 3), 1)):
+            shapes_axes = [((2, 3), 1), ((2, 3), 0), ((3, 2), -1), ((2, 2, 3), 1)]
+            if prefix in ("", "micro"):
+                # wavelength axis first / in the middle of 3-D and 4-D arrays, equal and unequal trailing axes (a permutation of the other axes is silent when they are equal)
+                shapes_axes += [((3, 2, 2), 0), ((3, 1, 2), 0), ((3, 2, 1), -3), ((2, 3, 2), -2), ((2, 3, 2, 2), 1)]
+            for shape, axis in shapes_axes:
                 add(f"axis {which} shape={shape} axis={axis} prefix={prefix!r}", "axis_case", shape=shape, axis=axis, prefix=prefix, which=which)
     for prefix in ("", "micro"):
         for in_unit in ("I", "microI", "W/m^2/nm", "uW/cm^2/nm"):
